@@ -5,6 +5,7 @@ mod job;
 mod pool;
 mod props;
 mod refenc;
+mod relstage;
 mod render;
 mod sanit;
 mod selfcheck;
@@ -135,13 +136,14 @@ fn main() {
                     std::process::exit(2);
                 }
             };
-            let rep = match run_prop(&id, &ctx) {
+            let mut rep = match run_prop(&id, &ctx) {
                 Some(r) => r,
                 None => {
                     println!("INCONCLUSIVE unknown property {id}");
                     std::process::exit(2);
                 }
             };
+            relstage::run(&ctx, &id, &mut rep);
             let code = fw::finish(&ctx, &id, rep, &sc);
             std::process::exit(code);
         }
